@@ -86,6 +86,8 @@ class C10(EngineProp):
                     fails.append({'signature': 'terminated-stream-still-registered:' + kind, 'what': '%s %d (stream %d) terminated but is still in the stream table' % (kind, oid, sid)})
                 if sid in cache and how != 'lost':
                     fails.append({'signature': 'terminated-stream-has-partial-frame:' + kind, 'what': '%s %d (stream %d) terminated but a partial frame remains cached' % (kind, oid, sid)})
+        if obs['final'].get('oneway_pending_settled'):
+            fails.append({'signature': 'one-way-request-not-finished-after-send', 'what': 'the frames of %s have been written, the send queue is empty, and the awaitable is still pending (the interaction never finishes)' % obs['final']['oneway_pending_settled']})
         if obs.get('extra'):
             for sid in obs['extra']['probes']:
                 ok = any(m.startswith('RECV:REQUEST_FNF:%d:' % sid) and any(t.startswith('HC:REQUEST_FNF') for t in outs) for m, outs in obs['steps'])
